@@ -53,3 +53,21 @@ Print Assumptions C06_noflags_transparent_flat_explicit.
 Print Assumptions C06_noflags_transparent.
 Print Assumptions C06_noflags_transparent_mixed_refuted.
 Print Assumptions C06_mixed_ops_typeerror.
+
+(* which tests are xfail (Model/Xfail.v): inline-snapshot is inert exactly in the tests that pytest itself treats as xfail - for every stack of marks
+   (function decorators, parameter set, class, module), with positional conditions and `condition=` *)
+From V Require Model.Xfail Proofs.XfailProofs.
+Theorem C06_is_xfail_agrees :
+  forall marks : list Xfail.mark, Xfail.is_xfail marks = Xfail.pytest_xfail marks.
+Proof. exact XfailProofs.is_xfail_agrees. Qed.
+Theorem C06_is_xfail_app :
+  forall a b : list Xfail.mark, Xfail.is_xfail (a ++ b) = Xfail.is_xfail a || Xfail.is_xfail b.
+Proof. exact XfailProofs.is_xfail_app. Qed.
+Theorem C06_xfail_example :
+  Xfail.is_xfail [{| Xfail.m_args := [false]; Xfail.m_condition := None |}; {| Xfail.m_args := []; Xfail.m_condition := None |}] = true /\
+  Xfail.is_xfail [{| Xfail.m_args := [true]; Xfail.m_condition := Some false |}; {| Xfail.m_args := [false; false]; Xfail.m_condition := None |}] = false /\
+  Xfail.is_xfail [{| Xfail.m_args := [false; true]; Xfail.m_condition := None |}] = true.
+Proof. exact XfailProofs.xfail_example. Qed.
+Print Assumptions C06_is_xfail_agrees.
+Print Assumptions C06_is_xfail_app.
+Print Assumptions C06_xfail_example.
